@@ -32,7 +32,7 @@ RULE = (
 )
 ASSUMPTIONS = ["enumeration bound N=9 (10 thorough); lengths above the C02 oracle bound are enumerated by the library and checked for downward closure only",
                "compression property of the three families (x embeds in a member iff in the member of length 2|x|+4), validated against the shipped tables at design time"]
-REQUIRED = ["calls.PinWords.has_finite_simples", "calls.PinWords.has_finite_alternations", "calls.PinWords.has_finite_wedges_type_1",
+REQUIRED = ["env.shards_with_other_hashseed", "calls.PinWords.has_finite_simples", "calls.PinWords.has_finite_alternations", "calls.PinWords.has_finite_wedges_type_1",
             "calls.PinWords.has_finite_wedges_type_2", "calls.Av.has_finitely_many_simples", "calls.FinitelyManySimplesStrategy.applies", "verdict.whole_checked", "verdict.all_nonpin_bases", "nonpin.bases",
             "verdict.finite", "verdict.infinite", "oracleA.infinite_checked", "oracleA.finite_confirmed", "oracleB.tables_checked",
             "oracleB.finite_families_checked", "symmetry.checked", "cli.checked", "oracleB.table_probes", "separating_bases", "history.enumeration_depths"]
@@ -420,6 +420,7 @@ def plan(tier, seed):
     probes = [(fi, oi) for fi, n in enumerate((4, 4, 8)) for oi in range(n)]
     specs = [{"name": f"bases-{i}", "kind": "bases", "bases": bases[i::parts], "extra": extra // parts + (i < extra % parts),
               "probes": probes[i::parts], "targets": [i]} for i in range(parts)]
+    specs.append(dict(specs[2], name="bases-hashseed", env={"PYTHONHASHSEED": str(313 + seed)}))
     specs.append({"name": "nonpin", "kind": "nonpin", "bases": [], "extra": 0, "length7": True})
     return specs
 
